@@ -13,7 +13,7 @@ func init() {
 	register(&propDef{
 		ID:  "C06",
 		Run: runC06,
-		Explain: "Decided (resource and error clauses): (a) reader slots and the wait group are paired: a slot acquired before `go` is released by a deferred receive registered before the goroutine's first return, Add precedes go, Done is deferred, Wait dominates close (same rules as C05-c); (b) every failure is counted: each err != nil branch after opening/following/draining an input passes through incErrors before it leaves, the scanner's error callback is installed before the first Scan in both batcher loops and calls incErrors unconditionally, ReadErrors returns the field incErrors increments, and no error result is silently discarded in the input-opening code; (c) every file opened by os.Open is closed by what the opener returns (a wrapper that does not close the underlying file must not be returned alone); (d) expansion completeness: every branch of the expansion loop sends the literal path or each expansion, the walk callback sends its own path argument for every non-directory, the channel is closed after the loop; (e) standard input is read under the name <stdin> exactly when there is no argument or the first is `-`; (f) exit status: same path rule as C03-d. " +
+		Explain: "Decided (resource and error clauses): (a) reader slots and the wait group are paired: a slot acquired before `go` is released by a deferred receive registered before the goroutine's first return, Add precedes go, Done is deferred, Wait dominates close (same rules as C05-c); (b) every failure is counted: each err != nil branch after opening/following/draining an input passes through incErrors before it leaves, the scanner's error callback is installed before the first Scan in both batcher loops and calls incErrors unconditionally, ReadErrors returns the field incErrors increments, and no error result is silently discarded in the input-opening code; (c) every file opened by os.Open is closed by what the opener returns (a wrapper that does not close the underlying file must not be returned alone); (d) expansion completeness: every branch of the expansion loop sends the literal path or each expansion, the walk callback sends its own path argument for every non-directory, the channel is closed after the loop; (e) standard input is read under the name <stdin> exactly when there is no argument or the first is `-`; (f) exit status: same path rule as C03-d. Every error openFileToReader returns originates from os.Open or the rewind Seek (a gzip probe failure falls back to plain reading); a log line alone does not count as handling a path argument. " +
 			"NOT decided: gzip fidelity (delegated to compress/gzip), recursion depth, 'exactly once per mention' for overlapping globs, errors reported by filepath.Walk for unreadable directories (dropped by the code; cannot be demonstrated as root here and recorded as a reviewed limitation).",
 		Assume: []string{"os.Open / gzip / filepath behave as documented"},
 	})
@@ -650,6 +650,7 @@ func c06OpenFailures(c *Ctx, r *Report) {
 		return
 	}
 	info := fi.Pkg.TypesInfo
+	fg := NewFGraph(fi.Decl.Body, info)
 	n := 0
 	inspectNoLit(fi.Decl.Body, func(x ast.Node) bool {
 		rs, ok := x.(*ast.ReturnStmt)
@@ -665,23 +666,38 @@ func c06OpenFailures(c *Ctx, r *Report) {
 			r.Bad(rule, fi.Name, stmtStr(rs), c.Pos(rs.Pos()), "the returned error is a computed expression: cannot tell which failure makes the input unreadable")
 			return true
 		}
+		// reaching definitions of the error variable at this return (the same `err` may be re-used by := further down)
 		var origins []string
-		ast.Inspect(fi.Decl.Body, func(y ast.Node) bool {
-			as, ok := y.(*ast.AssignStmt)
-			if !ok || len(as.Rhs) != 1 {
-				return true
+		retNode := fg.NodeOf(rs.Pos())
+		isDef := func(nd *FNode) bool {
+			as, ok := nd.N.(*ast.AssignStmt)
+			if !ok {
+				return false
 			}
 			for _, l := range as.Lhs {
 				if identObj(info, l) == eo {
-					if ce, ok := ast.Unparen(as.Rhs[0]).(*ast.CallExpr); ok {
-						origins = append(origins, calleeName(info, ce))
-					} else {
-						origins = append(origins, exprStr(as.Rhs[0]))
-					}
+					return true
 				}
 			}
-			return true
-		})
+			return false
+		}
+		for _, nd := range fg.Nodes {
+			if nd.N == nil || !isDef(nd) {
+				continue
+			}
+			if !fg.Reaches(nd.ID, retNode, isDef) {
+				continue
+			}
+			as := nd.N.(*ast.AssignStmt)
+			if len(as.Rhs) == 1 {
+				if ce, ok := ast.Unparen(as.Rhs[0]).(*ast.CallExpr); ok {
+					origins = append(origins, calleeName(info, ce))
+					continue
+				}
+			}
+			origins = append(origins, stmtStr(as))
+		}
+		// definitions in an if/switch init clause (if _, err := f(); err != nil) are separate statements for go/cfg too
 		bad := ""
 		for _, o := range origins {
 			if o != "os.Open" && o != "(*os.File).Seek" && o != "os.OpenFile" {
